@@ -99,6 +99,13 @@ def _random_job(k):
     out = _geom(mesh, sym, r, "none", None)
     if inert and float(np.max(np.abs(out - mesh))) > tol:
         bad.append("random:defaults_not_identity")
+    if inert and sym:
+        # a half mesh whose root is NOT on the symmetry plane (fuselage-side attachment, outboard panel): the defaults - with no
+        # `span` key the current span - must leave it unchanged too
+        mo = mesh.copy()
+        mo[:, :, 1] -= float(rng.uniform(0.3, 2.0))
+        if float(np.max(np.abs(_geom(mo, True, r, "none", None) - mo))) > tol:
+            bad.append("random:defaults_not_identity_offplane_root")
     if inert:
         # span
         S = float(rng.uniform(5, 40))
